@@ -46,6 +46,7 @@ def run(F, R):
     r4_raii(F, R, M, rule='L6')
     # L7: the registered addresses reach the device unchanged: transports' queue_set register traces (C10.M2 / C11.W3)
     transport_registration_rule(F, R, 'L7')
+    transport_registration_rule(F, R, 'L7', op='set_guest_page_size')      # a legacy device multiplies the registered page frame number by it
 
 
 @shared_rule
